@@ -196,6 +196,11 @@ func TestWorker(t *testing.T) {
 		}
 	}()
 
+	if w.WarmCrypto {
+		cryptotest.SetGlobalRandom(t, 1)
+		synctest.Test(t, func(t *testing.T) { cryptoWarmUp() })
+	}
+
 	if rf := os.Getenv("VERIF_REPLAY"); rf != "" {
 		b, err := os.ReadFile(rf)
 		if err != nil {
